@@ -3175,6 +3175,28 @@ impl Block {
         }
 
         //
+        // the rebroadcast hash does not cover the location (block id, tx ordinal) of
+        // the input slips: check that every rebroadcast consumes exactly the output
+        // that is leaving the window
+        //
+        if validate_against_utxo {
+            let carried = self
+                .transactions
+                .iter()
+                .filter(|tx| tx.transaction_type == TransactionType::ATR);
+            for (tx, expected) in carried.zip(cv.rebroadcasts.iter()) {
+                let same_inputs = tx.from.len() == expected.from.len()
+                    && tx.from.iter().zip(expected.from.iter()).all(|(a, b)| {
+                        a.get_utxoset_key() == b.get_utxoset_key()
+                    });
+                if !same_inputs {
+                    error!("ERROR 123423: rebroadcast transaction consumes a different output");
+                    return false;
+                }
+            }
+        }
+
+        //
         // merkle root
         //
         if self.merkle_root
